@@ -498,6 +498,7 @@ type FSMOpts struct {
 	ApplyPreUs    int  // random delay before taking the FSM lock in Apply (max, microseconds)
 	ApplyInUs     int  // random delay inside the critical section
 	ApplyFixUs    int  // fixed delay inside the critical section (directed windows)
+	SnapFixUs     int  // fixed delay inside Snapshot (directed windows)
 	SnapUs        int  // delay inside Snapshot (inside the critical section)
 	SnapPreUs     int
 	RestoreUs     int
@@ -578,6 +579,9 @@ func (f *FSM) Snapshot(w io.Writer) error {
 	f.sleep(f.opts.SnapPreUs)
 	f.mu.Lock()
 	f.sleep(f.opts.SnapUs)
+	if f.opts.SnapFixUs > 0 {
+		time.Sleep(time.Duration(f.opts.SnapFixUs) * time.Microsecond)
+	}
 	cnt, chn, lst := f.cnt, f.chn, f.lst
 	var data []byte
 	if !f.opts.Opaque {
